@@ -309,14 +309,14 @@ def tags (n n' : N) (op : Net.Op) : List String :=
 
 def stepLine (n : N) (ws : List String) : N × List String :=
   -- a previous op never came to rest (callback scripts feeding each other): nothing more is compared
-  if n.q ≠ [] then (n, ["P livelock"]) else
+  if !n.quiet then (n, ["P livelock"]) else
   match parse ws with
   | none => (n, ["bad-op"])
   | some op =>
     if !op.okIn n then (n, ["bad-op"]) else
     let r := (Net.step {} n op).2
     let n' := Net.stepQ {} n op
-    if n'.q ≠ [] then (n', ["B net-not-quiescent", "P livelock"]) else
+    if !n'.quiet then (n', ["B net-not-quiescent", "P livelock"]) else
     ({ n' with rawGot := [] }, ["B " ++ " ".intercalate (tags n n' op), report n n' r])
 
 end NetDrv
